@@ -440,7 +440,7 @@ func randTree(r *hx.Rng, bs int, budget int) *node {
 }
 
 func random(c *hx.Ctx) {
-	n := c.N(16, 600)
+	n := c.N(16, 250)
 	comps := []string{"none", "gzip", "gzip0", "xz", "lz4", "zstd"}
 	for i := 0; i < n; i++ {
 		id := fmt.Sprintf("r/%d", i)
